@@ -33,6 +33,9 @@ func ruleC15(c *Check) {
 	c.genesisCoverage("C15.13")
 	// stored price terms correspond to the pricing text also for a price of zero (kept as an explicit zero coin)
 	c.priceNonEmpty("C15.14", c.handFuncs("keeper"))
+	// the module's own pricing rule (ordered, disjoint promotions) is enforced for every stored binding
+	c.tiersOrdered("C15.15")
+	c.windowsDisjoint("C15.15")
 	c.genesisImportsAll("C15.13")
 	ents := map[string]*Entry{}
 	for _, e := range c.entries("C15.1") {
